@@ -13,6 +13,34 @@ def tagOf (which : String) : Option Text :=
 
 def decodeBytes (s : String) : Option Bytes := (decodeText s).map (·.map Char.toNat)
 
+def yearFormOf (yform : String) : Option Spec.YearForm :=
+  match yform.splitOn "/" with
+  | ["none"] => some Spec.YearForm.none
+  | ["single", a] => do pure (Spec.YearForm.single (← decodeText a))
+  | ["range", a, s1, s2, b] => do pure (Spec.YearForm.range (← decodeText a) (s1 == "1") (s2 == "1") (← decodeText b))
+  | _ => none
+
+/-- one line of a `c02info` request: kind `L` / `N` (tag line: pre, blanks, v, trail), `C` (notice line: pre, holder,
+    trail, prefix key, year form), `O` (any other line: its text in `pre`) -/
+def infoLineOf (kind : Char) (pre blanks v trail : Text) (key yform : String) : Option Spec.InfoLine :=
+  if kind == 'L' then some (.lic ⟨pre, blanks, v, trail⟩)
+  else if kind == 'N' then some (.con ⟨pre, blanks, v, trail⟩)
+  else if kind == 'O' then some (.other pre)
+  else if kind == 'C' then do
+    let kv ← Generated.copyrightPrefixes.find? (·.1 == key)
+    let shape ← Spec.prefixShapes.find? (·.1 == kv.2)
+    pure (.cpr shape (← yearFormOf yform) v pre trail)
+  else none
+
+def infoLinesOf : List Char → List Text → List Text → List Text → List Text → List String → List String →
+    Option (List Spec.InfoLine)
+  | [], [], [], [], [], [], [] => some []
+  | k :: ks, p :: ps, b :: bs, v :: vs, t :: ts, key :: keys, y :: ys => do
+      let l ← infoLineOf k p b v t key y
+      let rest ← infoLinesOf ks ps bs vs ts keys ys
+      pure (l :: rest)
+  | _, _, _, _, _, _, _ => none
+
 def stepC02 (fields : List String) : Option String :=
   match fields with
   | ["c02hyp", which, pre, blanks, v, trail, le] => do
@@ -46,6 +74,36 @@ def stepC02 (fields : List String) : Option String :=
         (pres.zip (blanks.zip (vs.zip trails))).map fun (p, b, v, t) => ⟨p, b, v, t⟩
       if ls.length != pres.length || vs.length != pres.length || trails.length != pres.length then none
       else pure (encodeBool (Spec.WFLines Generated.endRe (← tagOf which) ls))
+  | ["c02hyp2", which, pre, blanks, v, trail, le] => do
+      -- do the hypotheses of C02_value_exact (tailSafe instead of noEndSuffixBefore) hold for this line?
+      pure (encodeBool (Spec.WFValueSafe Generated.endRe (← tagOf which) (← decodeText pre) (← decodeText blanks)
+        (← decodeText v) (← decodeText trail) (← decodeText le)))
+  | ["c02linesg", which, kinds, pres, blanks, vs, trails] => do
+      -- do the line-local hypotheses of C02_tag_lines_general hold for every line of this text?  kinds: T = tag line,
+      -- F = line without the tag (its text in `pres`).  Answer: hypotheses | the theorem's text | the values it promises
+      let tag ← tagOf which
+      let pres ← decodeList pres
+      let blanks ← decodeList blanks
+      let vs ← decodeList vs
+      let trails ← decodeList trails
+      let ks := kinds.toList
+      if pres.length != ks.length || blanks.length != ks.length || vs.length != ks.length || trails.length != ks.length then none
+      else
+        let ls : List Spec.TextLine :=
+          (ks.zip (pres.zip (blanks.zip (vs.zip trails)))).map fun (k, p, b, v, t) =>
+            if k == 'T' then Spec.TextLine.tagged ⟨p, b, v, t⟩ else Spec.TextLine.free p
+        pure (encodeBool (ls.all (·.ok Generated.endRe tag)) ++ "|" ++ encodeText (Spec.textOf tag ls) ++ "|" ++
+          encodeList (ls.filterMap (·.value)))
+  | ["c02info", kinds, pres, blanks, vs, trails, keys, yforms] => do
+      -- do the hypotheses of C02_extract_exact hold for every line of this text?  Answer: hypotheses | the theorem's
+      -- text | what the theorem says is extracted
+      let ls ← infoLinesOf kinds.toList (← decodeList pres) (← decodeList blanks) (← decodeList vs) (← decodeList trails)
+        (keys.splitOn ";") (yforms.splitOn ";")
+      pure (encodeBool (ls.all (·.ok Generated.endRe)) ++ "|" ++ encodeText (Spec.infoTextOf ls) ++ "|" ++
+        encodeList (Spec.plantedInfo ls).lic ++ "|" ++ encodeList (Spec.plantedInfo ls).cpr ++ "|" ++
+        encodeList (Spec.plantedInfo ls).con ++ "|" ++
+        -- the hypothesis `hfit` of C02_file_exact
+        encodeBool (decide ((encodeUtf8 (Spec.infoTextOf ls)).length ≤ 4096) || containsSnippet (encodeUtf8 (Spec.infoTextOf ls))))
   | ["decode", bs] => do pure (encodeText (decodedText (← decodeBytes bs)))
   | ["windowlen", bs] => do pure (toString (window (← decodeBytes bs)).length)
   | ["infofile", bs, bad] => do
